@@ -69,8 +69,16 @@ func createShellFunctions() {
 		if s.Term != nil {
 			s.Term.Suspend()
 		}
+		prevCtx, prevCancel := s.Context, s.Cancel
 		//nolint:fatcontext // we do need to update/reset the context and its cancel function.
-		s.Context, s.Cancel = context.WithCancel(context.Background()) // no timeout.
+		s.Context, s.Cancel = context.WithCancel(context.Background()) // no timeout while the command runs.
+		if s.Term == nil {
+			// Not interactive: what follows the command is again under the deadline of the input.
+			defer func() {
+				s.Cancel()
+				s.Context, s.Cancel = prevCtx, prevCancel
+			}()
+		}
 		cmd, oerr := createCmd(*s, args)
 		if oerr != nil {
 			return *oerr
